@@ -473,3 +473,41 @@ def is_call_result(suffix):
 
 def is_field(name, owner_suffix=None):
     return lambda src: src[0] == "field" and src[2] == name and (owner_suffix is None or src[1].endswith(owner_suffix))
+
+
+# ------------------------------------------------------ abort inventory (T6) ----
+
+_INT_TYS = ("u8", "u16", "u32", "u64", "u128", "usize", "i8", "i16", "i32", "i64", "i128", "isize")
+_OP_TRAITS = {
+    "core::ops::arith::Add::add": "Add", "core::ops::arith::Sub::sub": "Sub", "core::ops::arith::Mul::mul": "Mul",
+    "core::ops::arith::Div::div": "Div", "core::ops::arith::Rem::rem": "Rem", "core::ops::arith::Neg::neg": "Neg",
+    "core::ops::bit::Shl::shl": "Shl", "core::ops::bit::Shr::shr": "Shr",
+    "core::ops::arith::AddAssign::add_assign": "Add", "core::ops::arith::SubAssign::sub_assign": "Sub",
+    "core::ops::arith::MulAssign::mul_assign": "Mul", "core::ops::arith::DivAssign::div_assign": "Div",
+    "core::ops::arith::RemAssign::rem_assign": "Rem", "core::ops::bit::ShlAssign::shl_assign": "Shl",
+    "core::ops::bit::ShrAssign::shr_assign": "Shr",
+}
+
+
+def abort_sites(cfg):
+    """Arithmetic that aborts on overflow / zero divisor in the dev profile:
+    Assert terminators of the overflow class, and calls to the std operator traits on integer
+    (reference) operands, which inherit the caller's overflow checks.
+    Returns [(bb, kind, ln, operand_operands)]."""
+    out = []
+    for i, b in enumerate(cfg.blocks):
+        if b.get("cleanup"):
+            continue
+        t = b["term"]
+        if t["t"] == "Assert":
+            k = t["kind"]
+            if k.startswith(("Overflow", "DivisionByZero", "RemainderByZero")):
+                out.append((i, k, t.get("ln"), t.get("ops", [])))
+        elif t["t"] == "Call":
+            f = op_const(t["f"]) or {}
+            g = f.get("fn")
+            if g in _OP_TRAITS:
+                st = (f.get("self") or "").replace("&", "").replace("mut ", "").strip()
+                if st in _INT_TYS:
+                    out.append((i, "Overflow(%s) via %s on &%s" % (_OP_TRAITS[g], g.split("::")[-1], st), t.get("ln"), t["args"]))
+    return out
